@@ -20,8 +20,9 @@ condition under a watchdog. A process that starts although the plan does not exp
 at once (so nothing can deadlock) and reported as an anomaly.
 
 Abstract configuration (JSON) -> the `cmd` / `cmds` context value, and -> the model request:
-  P    = {"id", "code", "out", "err"[, "spawn": "missing"|"noexec"|"badquote"|"cwd"[, "cwdkey": id]]}
+  P    = {"id", "code", "out", "err"[, "orep": n][, "erep": n][, "spawn": "missing"|"noexec"|"badquote"|"cwd"[, "cwdkey": id]]}
          code: 0, 1..255, or -N (killed by signal N); with "spawn": code 0, out/err ""
+         orep / erep: the command writes `out` / `err` that many times (outputs larger than a pipe buffer)
   cmd  : {"str": P} | {"map": M} | {"list": [{"str": P} | {"map": M}]}
          M = {"run": {"str": P} | {"list": [P]}, "save": bool, "bytes": bool}
   cmds : {"str": P} | {"map": A} | {"list": [{"str": P} | {"sub": [P]} | {"map": A}]}
@@ -29,10 +30,13 @@ Abstract configuration (JSON) -> the `cmd` / `cmds` context value, and -> the mo
 """
 from __future__ import annotations
 
+import json
 import os
 import re
+import select
 import shlex
 import shutil
+import signal
 import sys
 import tempfile
 import threading
@@ -53,10 +57,16 @@ if wait == '1':
         if time.monotonic() - t0 > 120:
             log('T %s\n' % ident); os._exit(97)
         time.sleep(0.001)
+def text(spec):
+    # '<hex>' or 'R<n>:<hex>' = the text repeated n times (output larger than a pipe buffer)
+    n = 1
+    if spec[0] == 'R':
+        n, spec = spec[1:].split(':')
+    return bytes.fromhex(spec).decode('ascii') * int(n)
 if out != '-':
-    sys.stdout.write(bytes.fromhex(out).decode('ascii'))
+    sys.stdout.write(text(out))
 if err != '-':
-    sys.stderr.write(bytes.fromhex(err).decode('ascii'))
+    sys.stderr.write(text(err))
 sys.stdout.flush(); sys.stderr.flush()
 log('D %s\n' % ident)
 open(os.path.join(d, 'done.' + ident), 'w').close()
@@ -74,8 +84,9 @@ os._exit(c)
 '''
 
 SENTINEL = '<<cmdOut untouched>>'
-WATCHDOG_S = 60.0          # whole case
+WATCHDOG_S = 60.0          # whole case (releaser's own view; the case process is killed before: CASE_DEADLINE_S)
 WAIT_S = 10.0              # one expected condition
+CASE_DEADLINE_S = 25.0     # a step that has not returned by then never returns: the case's process group is killed
 
 
 # --------------------------------------------------------------------------
@@ -86,11 +97,19 @@ SPAWN_KIND = {'missing': 'notFound', 'cwd': 'notFound', 'noexec': 'permission', 
 KIND_TYPE = {'notFound': 'FileNotFoundError', 'permission': 'PermissionError', 'badArgs': 'ValueError'}
 
 
+def eff_out(p):
+    return p['out'] * p.get('orep', 1)
+
+
+def eff_err(p):
+    return p['err'] * p.get('erep', 1)
+
+
 def mp(p):
     """P -> the model's Proc."""
     sp = p.get('spawn')
-    return {'id': p['id'], 'spawn': SPAWN_KIND[sp] if sp else None, 'code': p['code'], 'out': p['out'],
-            'err': p['err']}
+    return {'id': p['id'], 'spawn': SPAWN_KIND[sp] if sp else None, 'code': p['code'], 'out': eff_out(p),
+            'err': eff_err(p)}
 
 
 def spawn_label(p):
@@ -189,9 +208,9 @@ class Scratch:
                 os.chmod(path, 0o644)
                 return path + ' --arg'
             return os.path.join(self.dir, f"bq.{p['id']}") + ' "no closing quotation'
-        hx = lambda s: s.encode('ascii').hex() if s else '-'
+        hx = lambda s, n: (f'R{n}:' if n != 1 else '') + s.encode('ascii').hex() if s and n else '-'
         line = (f"{sys.executable} -S {self.script} {self.dir} {p['id']} {p['code']} {self.wait} "
-                f"{hx(p['out'])} {hx(p['err'])}")
+                f"{hx(p['out'], p.get('orep', 1))} {hx(p['err'], p.get('erep', 1))}")
         # under a shell `exec` makes the interpreter replace the shell: one pid per command
         return 'exec ' + line if self.shell else line
 
@@ -569,6 +588,10 @@ def run_async(case, plan):
             err_type = get_error_name(e)
             errors = [err_obs(e, sc, procs)]
         finally:
+            # "wait for all of them": the moment the step returns, every process it started has finished
+            ev0, _ = read_log(sc)
+            fin0 = {i for k, i in ev0 if k == 'f'}
+            running_at_return = sorted({i for k, i in ev0 if k == 's'} - fin0)
             finished.set()
         rel.join(WATCHDOG_S + 10)
         if rel.is_alive() or rel.infra:
@@ -586,6 +609,7 @@ def run_async(case, plan):
         return {'trace': canon_trace(ev), 'started': sorted({i for k, i in ev if k == 's'}),
                 'err_type': err_type, 'errors': errors,
                 'cmdOut': slots_obs(ctx.get('cmdOut', '<<deleted>>'), sc, procs),
+                'running_at_return': running_at_return,
                 'anomalies': rel.anomalies}
     finally:
         finished.set()
@@ -603,12 +627,145 @@ def worker_init():
     os.dup2(dn, 2)
 
 
+def run_case(case, plan):
+    try:
+        if case['kind'] == 'serial':
+            return run_serial(case)
+        return run_async(case, plan)
+    except Exception as e:
+        import traceback
+        return {'infra': f'{type(e).__name__}: {e}\n{traceback.format_exc()[-1500:]}'}
+
+
+def _scratch_logs(root):
+    """(started, finished) ids found in the child-script logs below `root` (a killed case leaves them)."""
+    st, fn = [], []
+    for dp, _, fs in os.walk(root):
+        if 'log' in fs and os.path.basename(dp).startswith('c17_'):
+            class _S:
+                dir = dp
+            ev, _ = read_log(_S)
+            st += [i for k, i in ev if k == 's']
+            fn += [i for k, i in ev if k == 'f']
+    return st, fn
+
+
+RUN_ROOT = None     # set by begin_run() before the worker pool forks: every case directory lives below it
+
+
+def begin_run():
+    global RUN_ROOT
+    RUN_ROOT = tempfile.mkdtemp(prefix='c17run_')
+    return RUN_ROOT
+
+
+def end_run():
+    """After the pool is gone (workers may have been terminated in the middle of a case): kill every case
+    process group that is still there and remove every scratch directory of the run."""
+    global RUN_ROOT
+    root, RUN_ROOT = RUN_ROOT, None
+    if not root:
+        return
+    try:
+        names = os.listdir(root)
+    except OSError:
+        names = []
+    for n in names:
+        if n.endswith('.pid'):
+            try:
+                with open(os.path.join(root, n)) as f:
+                    pid = int(f.read().strip())
+            except (OSError, ValueError):
+                continue
+            for kill in (os.killpg, os.kill):
+                try:
+                    kill(pid, signal.SIGKILL)
+                except (ProcessLookupError, PermissionError):
+                    pass
+    shutil.rmtree(root, ignore_errors=True)
+
+
+def isolated(case, plan, deadline=None):
+    """Run one case in a process (group) of its own under a deadline. The implementation under test may
+    never return (an event loop that never finishes, a wait on a process nobody reaps, unbounded recursion
+    into C): that must be an observation - `{'hang': ...}` - never a hang of the check. The observation
+    comes back as JSON over a pipe; on the deadline the whole process group (the step and every command it
+    spawned) is killed."""
+    deadline = CASE_DEADLINE_S if deadline is None else deadline
+    root = tempfile.mkdtemp(prefix='case_', dir=RUN_ROOT)
+    r, w = os.pipe()
+    pid = os.fork()
+    if pid != 0 and RUN_ROOT:
+        with open(root + '.pid', 'w') as f:
+            f.write(str(pid))
+    if pid == 0:
+        code = 0
+        try:
+            os.close(r)
+            os.setsid()
+            tempfile.tempdir = root
+            data = json.dumps(run_case(case, plan)).encode()
+            while data:
+                n = os.write(w, data)
+                data = data[n:]
+        except BaseException as e:      # noqa: the child must never fall back into the pool's code
+            try:
+                os.write(w, json.dumps({'infra': f'case process: {type(e).__name__}: {e}'}).encode())
+            except Exception:
+                code = 3
+        finally:
+            os._exit(code)
+    os.close(w)
+    t0 = time.monotonic()
+    buf = b''
+    timed_out = False
+    try:
+        while True:
+            left = deadline - (time.monotonic() - t0)
+            if left <= 0:
+                timed_out = True
+                break
+            rd, _, _ = select.select([r], [], [], min(left, 1.0))
+            if rd:
+                chunk = os.read(r, 1 << 16)
+                if not chunk:
+                    break
+                buf += chunk
+        if timed_out:
+            st, fn = _scratch_logs(root)
+            # the machine, or the implementation? time a trivial spawn
+            import subprocess
+            t1 = time.monotonic()
+            subprocess.run([sys.executable, '-S', '-c', 'pass'])
+            slow = time.monotonic() - t1
+            if slow > 2.0:
+                return {'infra': f'case not finished after {deadline}s on a machine where a trivial spawn takes {slow:.1f}s'}
+            return {'hang': {'after_s': deadline, 'started': st, 'finished': fn}}
+        if not buf:
+            return {'infra': 'case process died without an observation'}
+        return json.loads(buf.decode())
+    finally:
+        os.close(r)
+        for kill in (os.killpg, os.kill):
+            try:
+                kill(pid, signal.SIGKILL)
+            except (ProcessLookupError, PermissionError):
+                pass
+        try:
+            os.waitpid(pid, 0)
+        except ChildProcessError:
+            pass
+        shutil.rmtree(root, ignore_errors=True)
+        try:
+            os.unlink(root + '.pid')
+        except OSError:
+            pass
+
+
 def worker(job):
     idx, case, plan = job
     try:
-        if case['kind'] == 'serial':
-            return idx, run_serial(case)
-        return idx, run_async(case, plan)
+        return idx, isolated(case, plan)
     except Exception as e:
         import traceback
         return idx, {'infra': f'{type(e).__name__}: {e}\n{traceback.format_exc()[-1500:]}'}
